@@ -89,9 +89,13 @@ class Api:
 
     def list_finished(self):
         zk = self.world.zk
+
+        def cversion(path):
+            node = zk.nodes.get(path)
+            return node.cversion if node is not None else None
         key = (tuple((n, zk.nodes[z.FINISHED_HISTORY + '/' + n].czxid)
-                     for n in zk.children(z.FINISHED_HISTORY)),
-               zk.nodes[z.SCHEDULED].cversion, zk.nodes[z.FINISHED].cversion)
+                     for n in zk.children(z.FINISHED_HISTORY) or []),
+               cversion(z.SCHEDULED), cversion(z.FINISHED))
         hit = self._listed.get(key)
         if hit is None:
             hit = tuple(app_zk.list_traces(self.client, '*'))
